@@ -1,0 +1,58 @@
+// Copyright 2017 Pilosa Corp.
+//
+// Licensed under the Apache License, Version 2.0 (the "License");
+// you may not use this file except in compliance with the License.
+// You may obtain a copy of the License at
+//
+//     http://www.apache.org/licenses/LICENSE-2.0
+//
+// Unless required by applicable law or agreed to in writing, software
+// distributed under the License is distributed on an "AS IS" BASIS,
+// WITHOUT WARRANTIES OR CONDITIONS OF ANY KIND, either express or implied.
+// See the License for the specific language governing permissions and
+// limitations under the License.
+
+//go:build verif
+// +build verif
+
+package pilosa
+
+// Export shims for the verification harness (/verif, property C29). Add-only, tag-guarded.
+
+// VerifC29Snapshot snapshots every open fragment of a field (what the snapshot queue does when a
+// fragment's operation count passes MaxOpN). It returns the number of fragments visited.
+func VerifC29Snapshot(h *Holder, index, field string) (int, error) {
+	f := h.Field(index, field)
+	if f == nil {
+		return 0, ErrFieldNotFound
+	}
+	n := 0
+	for _, v := range f.views() {
+		for _, frag := range v.allFragments() {
+			if err := frag.Snapshot(); err != nil {
+				return n, err
+			}
+			n++
+		}
+	}
+	return n, nil
+}
+
+// VerifC29FlushCaches is Holder.flushCaches (the periodic cache flush of monitorCacheFlush).
+func VerifC29FlushCaches(h *Holder) { h.flushCaches() }
+
+// VerifC29SetMaxOpN lowers the operation count after which fragments of a field enqueue a
+// snapshot, so that the snapshot queue is exercised by short workloads.
+func VerifC29SetMaxOpN(h *Holder, index, field string, n int) {
+	f := h.Field(index, field)
+	if f == nil {
+		return
+	}
+	for _, v := range f.views() {
+		for _, frag := range v.allFragments() {
+			frag.mu.Lock()
+			frag.MaxOpN = n
+			frag.mu.Unlock()
+		}
+	}
+}
